@@ -71,6 +71,68 @@ def run(rep, prog, tier):
     rep.not_decided += ["the meaning of every query type over every corpus (the bulk of the property): values"]
     r1(rep, prog)
     r2(rep, prog)
+    r3(rep, prog)
+
+
+def classify_docspace(body, o):
+    """'max_doc' | 'num_docs' | None for an operand, from where its value comes"""
+    l = op_local(o)
+    if l is None:
+        return None
+    names = body.var_names()
+    tr = trace_back(body, l)
+    kinds = set()
+    for s_ in tr:
+        if s_[0] == "call":
+            base = s_[1].split("::")[-1]
+            # only the segment reader's own quantities (columnar `num_docs()` is a row count)
+            if base in ("max_doc", "num_docs") and "segment_reader::SegmentReader::" in s_[1]:
+                kinds.add(base)
+        if s_[0] == "param" and names.get(s_[1]) in ("max_doc", "num_docs"):
+            kinds.add(names[s_[1]])
+        if s_[0] == "field" and s_[2] in ("max_doc", "num_docs"):
+            kinds.add(s_[2])
+    cur = l
+    for _ in range(6):
+        if names.get(cur) in ("max_doc", "num_docs"):
+            kinds.add(names[cur])
+        ds = body.defs().get(cur, [])
+        if len(ds) == 1 and ds[0][0] == "stmt" and ds[0][3].get("r") == "use" and op_place(ds[0][3]["o"][0]) is not None and is_bare(op_place(ds[0][3]["o"][0])):
+            cur = op_local(ds[0][3]["o"][0])
+        else:
+            break
+    return kinds.pop() if len(kinds) == 1 else None
+
+
+def r3(rep, prog):
+    R = "C03-R3"
+    rep.rule(R, "doc-id space vs live count: wherever a function of the query / collector code has a parameter named max_doc (size of the doc-id space) or num_docs (number of live documents), no call site passes a value that provably is the other quantity (SegmentReader::max_doc() vs num_docs(), or a parameter / field / local so named)")
+    n = 0
+    nclass = 0
+    for b in prog.bodies.values():
+        if not (b.span.startswith("src/query") or b.span.startswith("src/collector")) or b.kind in ("const", "static", "promoted"):
+            continue
+        for bi, t in b.calls():
+            for callee in prog.call_may_reach(t):
+                cb = prog.body(callee)
+                if cb is None or not (callee.startswith("tantivy::query::") or callee.startswith("<tantivy::query::")):
+                    continue
+                cnames = cb.var_names()
+                for i in range(1, cb.argc + 1):
+                    want = cnames.get(i)
+                    if want not in ("max_doc", "num_docs") or i - 1 >= len(t["args"]):
+                        continue
+                    n += 1
+                    got = classify_docspace(b, t["args"][i - 1])
+                    if got is None:
+                        continue
+                    nclass += 1
+                    rep.check(got == want, R, "%s -> %s: `%s` receives a %s (site %d)" % (short(b.id), short(callee).split("::")[-1], want, got, n),
+                              "argument %d is a %s" % (i, got),
+                              "`%s` passes a %s where `%s` expects `%s`: with deleted documents the doc-id space is larger than the live count, so documents with ids >= num_docs are dropped (or phantom ids appear)" % (b.id, got, callee, want),
+                              site=site(b, bi))
+    rep.floor(R, "call sites with a max_doc / num_docs parameter", n, 25)
+    rep.floor(R, "of which the argument's origin is identified", nclass, 20)
 
 
 def r1(rep, prog):
